@@ -101,6 +101,12 @@ func VarLen(r *rand.Rand, max int) int {
 		l = VarLens[r.IntN(len(VarLens))]
 	case 3:
 		l = r.IntN(2000)
+	case 4:
+		if max > 2000 {
+			l = r.IntN(max + 1)
+		} else {
+			l = r.IntN(40)
+		}
 	default:
 		l = r.IntN(40)
 	}
